@@ -594,7 +594,7 @@ func (f *MemFile) Truncate(size int64) error {
 		return &fs.PathError{Op: op, Path: f.name, Err: fs.ErrClosed}
 	}
 
-	if size < 0 {
+	if size < 0 || size > maxFileSize {
 		return &fs.PathError{Op: op, Path: f.name, Err: f.vfs.err.InvalidArgument}
 	}
 
@@ -679,6 +679,12 @@ func (f *MemFile) Write(b []byte) (n int, err error) {
 		f.at = int64(len(nd.data))
 	}
 
+	if f.at > maxFileSize-int64(len(b)) {
+		nd.mu.Unlock()
+
+		return 0, &fs.PathError{Op: op, Path: f.name, Err: f.vfs.err.InvalidArgument}
+	}
+
 	// Writing beyond the end of the file leaves a zero-filled gap.
 	if gap := f.at - int64(len(nd.data)); gap > 0 {
 		nd.data = append(nd.data, make([]byte, gap)...)
@@ -746,6 +752,10 @@ func (f *MemFile) WriteAt(b []byte, off int64) (n int, err error) {
 		}
 
 		return 0, &fs.PathError{Op: op, Path: f.name, Err: err}
+	}
+
+	if off > maxFileSize-int64(len(b)) {
+		return 0, &fs.PathError{Op: "writeat", Path: f.name, Err: f.vfs.err.InvalidArgument}
 	}
 
 	nd.mu.Lock()
